@@ -2,16 +2,16 @@ SPECIFICATION Spec
 CONSTANTS
   NVB = 2
   InitLog <- EmptyLog
-  MaxSeq = 2
+  MaxSeq = 1
   Keys = {"user", "conn"}
-  Kinds = {"mut", "del", "exp", "sys"}
+  Kinds = {"mut", "del"}
   OldEvents = FALSE
   BadEvents = FALSE
   FoUuid <- Fo10
   Savers = {"p"}
-  MaxSaves = 1
+  MaxSaves = 0
   MaxCrash = 0
-  MaxAcks = 2
+  MaxAcks = 1
   MaxGen = 4
   MaxNotify = 1
   MaxEnds = 1
